@@ -130,7 +130,6 @@ class CtorUnit(Unit):
             if not hit:
                 # the constructor must succeed for every in-range argument tuple
                 yield "C01", "constructor-returns (raised %s)" % type(out.exc).__name__, False
-                yield "C17", "no-unspecified-exception (raised %s)" % type(out.exc).__name__, False
             return
         for name, cond in spec_raises.items():
             yield "C17", "raises:%s-whenever-specified" % name, V.bnot(cond)
